@@ -825,3 +825,34 @@ pub fn canon(n: &Node) -> String {
     go(n, &mut s);
     s
 }
+
+/// kinds from the root to the deepest node whose first token is at (line, col); col may be chars or UTF-16 units
+pub fn find_path(n: &Node, line: usize, col: usize) -> Option<Vec<&'static str>> {
+    let mut best: Option<Vec<&'static str>> = None;
+    fn go(n: &Node, line: usize, col: usize, path: &mut Vec<&'static str>, best: &mut Option<Vec<&'static str>>) {
+        path.push(n.kind);
+        let hit = |p: &P| p.set && p.line as usize == line && (p.col as usize == col || p.col16 as usize == col);
+        if hit(&n.p) || n.alt_p.as_ref().is_some_and(hit) {
+            if best.as_ref().is_none_or(|b| b.len() <= path.len()) {
+                *best = Some(path.clone());
+            }
+        }
+        for k in &n.kids {
+            go(k, line, col, path, best);
+        }
+        path.pop();
+    }
+    go(n, line, col, &mut vec![], &mut best);
+    best
+}
+
+/// short site class of a position in a document: the last three kinds on the path
+pub fn site_class(n: &Node, line: usize, col: usize) -> String {
+    match find_path(n, line, col) {
+        None => "no-node-at-position".into(),
+        Some(p) => {
+            let from = p.len().saturating_sub(3);
+            p[from..].join(">")
+        }
+    }
+}
